@@ -578,6 +578,8 @@ func TestVerifPoolStress(t *testing.T) {
 		switch env.Prop {
 		case "C09":
 			ssRoundRobinExact(out, rng, idx)
+		case "C07":
+			ssOneReplacement(out, rng, idx)
 		case "C03":
 			if idx%2 == 0 {
 				ssToctouGrow(out, rng, idx)
@@ -585,6 +587,12 @@ func TestVerifPoolStress(t *testing.T) {
 				ssQuiescent(out, env, cfgs[5], rng, idx)
 			}
 		default:
+			if env.Prop == "C02" && idx%3 == 2 {
+				for sub := 0; sub < 30 && len(out.Violations) == 0; sub++ {
+					ssBalancedFill(out, rng, idx)
+				}
+				continue
+			}
 			cfg := cfgs[idx%int64(len(cfgs))]
 			if (env.Prop == "C06" || env.Prop == "C05") && idx%2 == 1 {
 				// lock-order inversions between completions and refresh take-overs
@@ -854,6 +862,192 @@ func ssToctouGrow(out *vOut, rng *vRand, idx int64) {
 	out.sample(map[string]interface{}{"case": idx, "summary": log[0]})
 	if pool > max {
 		out.violation(vViol{Sig: "C03.toctou-grow", Rule: "C03.toctou-grow", Detail: fmt.Sprintf("two picks on different pickers grew the pool to %d channels, maxSize is %d (size check and creation are not atomic)", pool, max), Case: idx, Log: log})
+	}
+}
+
+// ssBalancedFill: M goroutines place unkeyed calls concurrently on one picker
+// over a fixed all-READY pool, none completes meanwhile. If every placement goes
+// to a channel whose count is minimal at that moment (scan and increment being
+// one step with respect to other picks), the final counts are the water-filling
+// of the initial counts: sorted, they are determined exactly.
+func ssBalancedFill(out *vOut, rng *vRand, idx int64) {
+	verifClockOn = false
+	n := 2 + rng.Intn(4)
+	// a low watermark makes the saturated path (which consults the balancer for
+	// the pool size between the scan and the increment) the common one
+	wm := []uint32{1, 1, 2, 3, 1000}[rng.Intn(5)]
+	cp := &pb.ChannelPoolConfig{MinSize: uint32(n), MaxSize: uint32(n), MaxConcurrentStreamsLowWatermark: wm}
+	cc := &ssCC{}
+	b := newBuilder().Build(cc, balancer.BuildOptions{}).(*gcpBalancer)
+	b.UpdateClientConnState(balancer.ClientConnState{ResolverState: resolver.State{Addresses: []resolver.Address{{Addr: "v1"}}}, BalancerConfig: &GCPBalancerConfig{ApiConfig: &pb.ApiConfig{ChannelPool: cp, Method: ssMethods()}}})
+	for _, c := range cc.snapshotConns() {
+		b.UpdateSubConnState(c, balancer.SubConnState{ConnectivityState: connectivity.Connecting})
+		b.UpdateSubConnState(c, balancer.SubConnState{ConnectivityState: connectivity.Ready})
+	}
+	p := cc.picker(rng, 0, nil)
+	if p == nil || len(cc.snapshotConns()) != n {
+		out.inconclusive("balanced-fill: pool not built")
+		return
+	}
+	counts := make([]int64, n)
+	var dones [][]func(balancer.DoneInfo)
+	for i := 0; i < n; i++ {
+		dones = append(dones, nil)
+	}
+	var log []string
+	rounds := 1 + rng.Intn(3)
+	for round := 0; round < rounds; round++ {
+		m := 2 + rng.Intn(14)
+		k := 1 + rng.Intn(60)
+		total := m * k
+		// expected: water-filling of the counts before the round
+		want := append([]int64(nil), counts...)
+		for i := 0; i < total; i++ {
+			lo := 0
+			for j := range want {
+				if want[j] < want[lo] {
+					lo = j
+				}
+			}
+			want[lo]++
+		}
+		before := append([]int64(nil), counts...)
+		var errs int64
+		perG := make([][]balancer.PickResult, m)
+		var wg sync.WaitGroup
+		if round%2 == 0 {
+			ssInstallYield(uint64(idx)*131+uint64(round), 25)
+		} else {
+			ssInstallYieldSleep(uint64(idx)*131+uint64(round), 25)
+		}
+		start := make(chan struct{})
+		for g := 0; g < m; g++ {
+			wg.Add(1)
+			go func(g int) {
+				defer wg.Done()
+				<-start
+				for i := 0; i < k; i++ {
+					pr, err := p.Pick(balancer.PickInfo{FullMethodName: "/v/plain", Ctx: &ssCtx{Context: context.Background()}})
+					if err != nil {
+						atomic.AddInt64(&errs, 1)
+						continue
+					}
+					perG[g] = append(perG[g], pr)
+				}
+			}(g)
+		}
+		close(start)
+		wg.Wait()
+		verifYieldFn = nil
+		for _, l := range perG {
+			for _, pr := range l {
+				id := pr.SubConn.(*ssConn).id
+				counts[id]++
+				dones[id] = append(dones[id], pr.Done)
+			}
+		}
+		out.hit("C02.stress-balanced-fill")
+		out.hitN("C02.stress-fill-picks", int64(total))
+		got := append([]int64(nil), counts...)
+		sort.Slice(got, func(i, j int) bool { return got[i] < got[j] })
+		sort.Slice(want, func(i, j int) bool { return want[i] < want[j] })
+		log = append(log, fmt.Sprintf("balanced-fill channels=%d watermark=%d round %d: %d goroutines x %d unkeyed picks on counts %v -> %v (errors %d)", n, wm, round, m, k, before, counts, errs))
+		if errs != 0 || fmt.Sprint(got) != fmt.Sprint(want) {
+			out.violation(vViol{Sig: "C02.stress-balanced-fill", Rule: "C02.stress-balanced-fill", Detail: fmt.Sprintf("%d concurrent unkeyed picks over %d READY channels with counts %v ended with %v (errors %d); placing every call on a least-loaded channel gives %v (sorted)", total, n, before, counts, errs, want), Case: idx, Log: log})
+			return
+		}
+		// complete a random subset sequentially (makes the counts uneven for the next round)
+		for id := range dones {
+			r := rng.Intn(len(dones[id]) + 1)
+			for i := 0; i < r; i++ {
+				dones[id][len(dones[id])-1](balancer.DoneInfo{})
+				dones[id] = dones[id][:len(dones[id])-1]
+				counts[id]--
+			}
+		}
+	}
+	out.nontrivial(vHashStrings(log))
+	out.sample(map[string]interface{}{"case": idx, "summary": log})
+}
+
+// ssOneReplacement: K calls of one channel end with the client-side deadline
+// error at the same time, on different goroutines, after the window has passed:
+// exactly one replacement connection may be created for the channel.
+func ssOneReplacement(out *vOut, rng *vRand, idx int64) {
+	n := 1 + rng.Intn(3)
+	k := 2 + rng.Intn(10)
+	cp := &pb.ChannelPoolConfig{MinSize: uint32(n), MaxSize: uint32(n), MaxConcurrentStreamsLowWatermark: 1000, UnresponsiveCalls: uint32(1 + rng.Intn(2)), UnresponsiveDetectionMs: 1}
+	verifClockOn = false
+	cc := &ssCC{}
+	b := newBuilder().Build(cc, balancer.BuildOptions{}).(*gcpBalancer)
+	b.UpdateClientConnState(balancer.ClientConnState{ResolverState: resolver.State{Addresses: []resolver.Address{{Addr: "v1"}}}, BalancerConfig: &GCPBalancerConfig{ApiConfig: &pb.ApiConfig{ChannelPool: cp, Method: ssMethods()}}})
+	for _, c := range cc.snapshotConns() {
+		b.UpdateSubConnState(c, balancer.SubConnState{ConnectivityState: connectivity.Connecting})
+		b.UpdateSubConnState(c, balancer.SubConnState{ConnectivityState: connectivity.Ready})
+	}
+	p := cc.picker(rng, 0, nil)
+	if p == nil {
+		out.inconclusive("one-replacement: no picker")
+		return
+	}
+	type call struct {
+		done func(balancer.DoneInfo)
+		id   int
+	}
+	var calls []call
+	dl := time.Now().Add(-time.Second) // the calls' deadline has passed: their contexts report the client-side deadline error
+	for i := 0; i < n*k; i++ {
+		ctx, cancel := context.WithDeadline(context.Background(), dl)
+		defer cancel()
+		pr, err := p.Pick(balancer.PickInfo{FullMethodName: "/v/plain", Ctx: &ssCtx{Context: ctx}})
+		if err != nil {
+			out.inconclusive("one-replacement: pick failed")
+			return
+		}
+		calls = append(calls, call{pr.Done, pr.SubConn.(*ssConn).id})
+	}
+	time.Sleep(20 * time.Millisecond) // real clock in this engine: at least 20ms have passed since any response, the window is 1ms
+	newBefore := atomic.LoadInt64(&cc.newCalls)
+	// a busy balancer: a goroutine keeps taking the balancer's lock through resolver errors
+	var stop int32
+	var wgB sync.WaitGroup
+	if idx%2 == 0 {
+		wgB.Add(1)
+		go func() {
+			defer wgB.Done()
+			for atomic.LoadInt32(&stop) == 0 {
+				b.UpdateSubConnState(&ssConn{id: -1}, balancer.SubConnState{ConnectivityState: connectivity.Idle})
+				runtime.Gosched()
+			}
+		}()
+	}
+	ssInstallYieldSleep(uint64(idx)*977+3, 30)
+	var wg sync.WaitGroup
+	start := make(chan struct{})
+	for _, c := range calls {
+		wg.Add(1)
+		go func(c call) {
+			defer wg.Done()
+			<-start
+			c.done(balancer.DoneInfo{Err: ssDeadlineErr})
+		}(c)
+	}
+	close(start)
+	wg.Wait()
+	atomic.StoreInt32(&stop, 1)
+	wgB.Wait()
+	verifYieldFn = nil
+	created := atomic.LoadInt64(&cc.newCalls) - newBefore
+	b.mu.RLock()
+	pending := len(b.refreshingScRefs)
+	b.mu.RUnlock()
+	out.hit("C07.stress-one-replacement")
+	out.hitN("C07.stress-concurrent-timeouts", int64(len(calls)))
+	log := []string{fmt.Sprintf("one-replacement channels=%d: %d calls per channel ended with the client-side deadline error concurrently, >=20ms after the last response (window 1ms): %d NewSubConn calls, %d replacements pending", n, k, created, pending)}
+	out.nontrivial(vHashStrings([]string{"one-repl", fmt.Sprint(n, k, cp.UnresponsiveCalls)}))
+	out.sample(map[string]interface{}{"case": idx, "summary": log[0]})
+	if created != int64(n) || pending != n {
+		out.violation(vViol{Sig: "C07.stress-one-replacement", Rule: "C07.stress-one-replacement", Detail: fmt.Sprintf("%d channels each had %d calls time out concurrently after the window: %d replacement connections created, %d pending; exactly one per channel is allowed", n, k, created, pending), Case: idx, Log: log})
 	}
 }
 
